@@ -14,13 +14,16 @@ def reset():
     sh("git", "-C", WT, "checkout", "--", ".")
     sh("git", "-C", WT, "clean", "-fdq")
 
-def run_checks(props, tier="quick"):
+def run_checks(props, tier="quick", target=None):
     out = {}
     for p in props:
         t0 = time.time()
-        c = sh(os.path.join(V, "check"), p, "--tier", tier, "--no-evidence", env=dict(os.environ, VERIF_REPO=WT), cwd=V)
+        env = dict(os.environ, VERIF_REPO=WT)
+        if target is not None and p != target and os.environ.get("MATRIX_DIV"):
+            env["VERIF_BUDGET_DIV"] = os.environ["MATRIX_DIV"]
+        c = sh(os.path.join(V, "check"), p, "--tier", tier, "--no-evidence", env=env, cwd=V)
         keys = [l.split("]")[0][len("violation["):] for l in c.stdout.splitlines() if l.startswith("violation[")]
-        out[p] = {"rc": c.returncode, "violation_keys": keys[:6], "wall_s": round(time.time() - t0, 1),
+        out[p] = {"rc": c.returncode, "violation_keys": keys[:6], "wall_s": round(time.time() - t0, 1), "budget": ("quick/" + env["VERIF_BUDGET_DIV"]) if "VERIF_BUDGET_DIV" in env else "quick",
                   "verdict": "caught" if c.returncode == 1 else "missed" if c.returncode == 0 else "inconclusive"}
     return out
 
@@ -69,7 +72,7 @@ def main():
             verified = tests_ok and dm == 1 and dc == 0
             sh("git", "-C", WT, "apply", os.path.join(d, "patch.diff"))
             props = [prop] if props_arg == "target" else (ALL if props_arg == "all" else props_arg.split(","))
-            res = run_checks(props) if verified else {}
+            res = run_checks(props, target=prop) if verified else {}
             reset()
             print(f"{mid}: tests[{tests[:30]}] demo_with={dm} demo_without={dc} verified={verified} " + " ".join(f"{p}:{r['verdict']}" for p, r in res.items()), flush=True)
             if verified:
